@@ -98,11 +98,11 @@ def peek (a : LSt) : Nat × LSt :=
 /-- the state effect of `peekTwo()`; inside the protocol only when a byte is certainly buffered
     (or nothing is left) -/
 def peekTwoEff0 (a : LSt) : LSt :=
-  let a := { a with ok := a.ok && (a.look ≥ 1 || a.rest.isEmpty) }
+  let okv := a.ok && (decide (a.look ≥ 1) || a.rest.isEmpty)
   let a := match a.rest with
     | _ :: _ :: _ => a
     | _ => a.fillE
-  { a with look := max a.look 2 }
+  { a with look := max a.look 2, ok := okv }
 
 def peekTwoEff (a : LSt) : LSt := a.forget.peekTwoEff0
 
